@@ -34,5 +34,10 @@ for f in "$VERIF"/regress/held/*.json; do
   o="$("$S/runner" -replay "$f" -known "$VERIF/known_findings.json" 2>&1)"
   echo "$o" | grep -q "held (no violation)" || { echo "selftest: regression replay $f no longer holds: $o" | head -3; rc=1; }
 done
+for f in "$VERIF"/regress/discarded/*.json; do
+  [ -f "$f" ] || continue
+  o="$("$S/runner" -replay "$f" -known "$VERIF/known_findings.json" 2>&1)"
+  echo "$o" | grep -q "discarded" || { echo "selftest: regression replay $f is no longer discarded: $o" | head -3; rc=1; }
+done
 echo "selftest: exit $rc"
 exit $rc
